@@ -1,4 +1,5 @@
 import SparseSpace.Properties.C09
+import SparseSpace.Properties.C09gen
 #print axioms SparseSpace.C09.trap_eq_plIntegral
 #print axioms SparseSpace.C09.trap_zero_boundary
 #print axioms SparseSpace.C09.modTrap_eq_plIntegral_extrap
@@ -11,3 +12,12 @@ import SparseSpace.Properties.C09
 #print axioms SparseSpace.C09.weights_depend_on_points_only
 #print axioms SparseSpace.C09.tensor_exact
 #print axioms SparseSpace.C09.tensor_bilinear_exact
+#print axioms SparseSpace.C09gen.plain_agrees
+#print axioms SparseSpace.C09gen.modified_agrees
+#print axioms SparseSpace.C09gen.compute_weights_agrees
+#print axioms SparseSpace.C09gen.quad_weights_agrees
+#print axioms SparseSpace.C09gen.quad_weights_levels_irrelevant
+#print axioms SparseSpace.C09gen.gen_trap_eq_plIntegral
+#print axioms SparseSpace.C09gen.gen_trap_nonneg
+#print axioms SparseSpace.C09gen.gen_modTrap_eq_plIntegral_extrap
+#print axioms SparseSpace.C09gen.setGrid_uses_generated
